@@ -438,6 +438,13 @@ func registerFS(ex *Executor) {
 		st.addPC(smt.Gt(v, smt.IntC(0)))
 		return v, cNext
 	}
+	I["@verifMTimeRawName"] = func(ex *Executor, st *State, cc *CallCtx, args []Val) (Val, ctl) {
+		v := smt.Var(fmt.Sprintf("nd%d_%s", len(st.ND), "int"), smt.Int)
+		st.ND = append(st.ND[:len(st.ND):len(st.ND)], NDRec{Kind: "ext-int", Tag: "mtime-by-name", T: v})
+		st.addPC(smt.Gt(v, smt.IntC(0)))
+		return v, cNext
+	}
+	I["@verifAgeFiles"] = func(ex *Executor, st *State, cc *CallCtx, args []Val) (Val, ctl) { return nil, cNext }
 	I["@verifAgeFile"] = func(ex *Executor, st *State, cc *CallCtx, args []Val) (Val, ctl) { return nil, cNext }
 	I["@verifENOENT"] = func(ex *Executor, st *State, cc *CallCtx, args []Val) (Val, ctl) {
 		return ex.mkErr(st, "ENOENT"), cNext
